@@ -37,7 +37,11 @@ class A(Adapter):
     def build(self, c):
         from jumanji.environments import Snake
         kw = {} if c.get("tl") is None else {"time_limit": c["tl"]}
-        return Snake(num_rows=c["r"], num_cols=c["c"], **kw)
+        env = Snake(num_rows=c["r"], num_cols=c["c"], **kw)
+        if c.get("mirror"):  # wrapped environment (C13/C14 only)
+            from jsim import fakes
+            env = fakes.mirror_obs_wrapper(env)
+        return env
 
     def time_limit(self, env, c):
         return 4000 if c.get("tl") is None else c["tl"]
